@@ -13,6 +13,7 @@ from AEIC.config.emissions import (
     PMvolMethod,
 )
 from AEIC.performance.models import BasePerformanceModel
+from AEIC.performance.types import ThrustMode
 from AEIC.trajectories.trajectory import Trajectory
 from AEIC.types import Species, SpeciesValues
 
@@ -228,7 +229,9 @@ def _calculate_EI_PMnvol(
 
 def _thrust_percentages_from_categories(thrust_modes: ThrustModeArray):
     """Convert thrust codes into representative ICAO mode percentages."""
-    return np.asarray([c.thrust_percentage for c in thrust_modes])
+    # Iterating over a ThrustModeArray yields the stored string values, not
+    # ThrustMode members, so convert back before asking for the percentage.
+    return np.asarray([ThrustMode(c).thrust_percentage for c in thrust_modes])
 
 
 def _trajectory_slice(traj: Trajectory) -> slice:
